@@ -5,7 +5,6 @@ package router
 // Contracts for the deductive verifier under /verif (govc). This file contains
 // only comments: it adds no code with or without the build tag.
 
-
 // ---------------------------------------------------------------------------
 // Field invariants: configuration fields that are set once, never nil
 
@@ -203,7 +202,7 @@ package router
 //@ func (b *broker) syncUnsubscribe
 //@   nonblocking
 //@   on broker
-//@   props C01 C05 C18
+//@   props C01 C05 C18 C20
 //@   requires brokerInv(b) && brokerIndex(b) && brokerOwn(b)
 //@   requires subscriber != nil && !isnil(subscriber.Peer) && msg != nil
 //@   modifies map(b.subscriptions), map(b.topicSubscription), map(b.pfxTopicSubscription), map(b.wcTopicSubscription), map(b.sessionSubIDSet), all map[*wamp.Session]struct{}, all map[wamp.ID]struct{}, ghost sendcount
@@ -216,6 +215,7 @@ package router
 //@   ensures [inv-index] brokerIndex(b)
 //@   ensures [inv-own] brokerOwn(b)
 //@   ensures [removed] !isMember(b, subscriber, msg.Subscription)
+//@   ensures [history-subscription-survives] forall i wamp.ID :: old(i in b.subscriptions) && old(b.subscriptions[i] in b.eventHistoryStore) ==> i in b.subscriptions && b.subscriptions[i] == old(b.subscriptions[i])
 //@   ensures [others-untouched] forall s *wamp.Session, i wamp.ID :: s != subscriber ==> (isMember(b, s, i) <==> old(isMember(b, s, i)))
 //@   ensures [own-others-kept] forall i wamp.ID :: i != msg.Subscription ==> (isMember(b, subscriber, i) <==> old(isMember(b, subscriber, i)))
 //@   ensures [non-member-no-change] !old(isMember(b, subscriber, msg.Subscription)) ==> (forall i wamp.ID :: (i in b.subscriptions) == old(i in b.subscriptions))
@@ -227,7 +227,7 @@ package router
 //@ func (b *broker) syncRemoveSession
 //@   nonblocking
 //@   on broker
-//@   props C01 C05 C18
+//@   props C01 C05 C18 C20
 //@   requires brokerInv(b) && brokerIndex(b) && brokerOwn(b)
 //@   requires subscriber != nil
 //@   modifies map(b.subscriptions), map(b.topicSubscription), map(b.pfxTopicSubscription), map(b.wcTopicSubscription), map(b.sessionSubIDSet), all map[*wamp.Session]struct{}, ghost sendcount
@@ -241,9 +241,11 @@ package router
 //@   ensures [inv-own] brokerOwn(b)
 //@   ensures [gone] forall i wamp.ID :: !isMember(b, subscriber, i)
 //@   ensures [gone-index] !(subscriber in b.sessionSubIDSet)
+//@   ensures [history-subscription-survives] forall i wamp.ID :: old(i in b.subscriptions) && old(b.subscriptions[i] in b.eventHistoryStore) ==> i in b.subscriptions && b.subscriptions[i] == old(b.subscriptions[i])
 //@   ensures [others-untouched] forall s *wamp.Session, i wamp.ID :: s != subscriber ==> (isMember(b, s, i) <==> old(isMember(b, s, i)))
 //@   loop range subIDSet
 //@     invariant [nn] brokerNN(b)
+//@     invariant [history-kept] forall i wamp.ID :: old(i in b.subscriptions) && old(b.subscriptions[i] in b.eventHistoryStore) ==> i in b.subscriptions && b.subscriptions[i] == old(b.subscriptions[i])
 //@     invariant [subs] brokerSubs(b)
 //@     invariant [exact] brokerExact(b)
 //@     invariant [pfx] brokerPfx(b)
